@@ -54,9 +54,10 @@ pub fn judge(res: &Result<Element<String>, ParserError>, exp: &Expect, initial: 
             if pos != buffer_position && pos != error_position {
                 return Err(format!("reader position is {} (error position {}) but the returned error carries {}", buffer_position, error_position, pos));
             }
+            // the statement is about what the error value carries; of its Display we only require that it says something
             let shown = format!("{}", res.as_ref().err().unwrap());
-            if !shown.contains(&pos.to_string()) {
-                return Err(format!("Display of the syntax error does not mention the position {}: `{}`", pos, shown));
+            if shown.trim().is_empty() {
+                return Err(format!("Display of the syntax error at position {} is empty", pos));
             }
             Ok(())
         }
